@@ -24,7 +24,7 @@ LEVEL = "exploration"
 SHARDS = {"quick": 16, "thorough": 16}
 RULE = ("call alphabet (about 300 calls, built deterministically from the configuration and VERIF_SEED) covering every cached entry point and "
         "every flag / configuration value: Sid(str / sid= / fields= / query= / path= with each config, default and a bogus one), sid.path(config) "
-        "positional / keyword / default, unfold_search with its four flag values positional / keyword / mixed / default, match, find on a fixed "
+        "positional / keyword / default, unfold_search with its four flag values positional / keyword / mixed / default / only-the-set-flag-by-keyword, match, find on a fixed "
         "list, both trees and FindInAll (fully and partially consumed generators kept alive), exists, failing calls, entity creation. "
         "Each shard owns one PYTHONHASHSEED (8 seeds; shards 8-15 run with cache capacity 3) and checks: all ordered pairs inside a family of related calls (or-search / its alternatives / alias / members / '**' / explicit levels, through every entry point), all ordered pairs of a 22-call (quick) or 150+-call (thorough) "
         "sub-alphabet, Hypothesis-generated sequences of up to 50 calls (with creates), a flood of 5000 distinct Sids followed by probes, truth "
@@ -207,7 +207,7 @@ def alphabet(model, seed: int):
     for s in searches:
         for u in (False, True):
             for e in (False, True):
-                for style in ("pos", "kw", "mixed") + (("default",) if not u and not e else ()):
+                for style in ("pos", "kw", "mixed") + (("default",) if not u and not e else ()) + (("sparse",) if u != e else ()):
                     calls.append({"k": "unfold", "s": s, "u": u, "e": e, "style": style})
     # match
     for t, f, s in picked[:4]:
